@@ -55,13 +55,6 @@ func (v *VMValue) toJSONRaw(save map[*VMValue]bool, seen map[any]bool) ([]byte, 
 		return json.Marshal(x)
 
 	case VMTypeArray:
-		if save == nil {
-			save = map[*VMValue]bool{}
-		}
-		if _, exists := save[v]; exists {
-			return nil, errors.New("值错误: 序列化时检测到循环引用")
-		}
-		save[v] = true
 		ad, _ := v.ReadArray()
 		if seen[ad] {
 			return nil, errors.New("值错误: 序列化时检测到循环引用")
@@ -84,13 +77,6 @@ func (v *VMValue) toJSONRaw(save map[*VMValue]bool, seen map[any]bool) ([]byte, 
 		return bytes.Join(lst2, []byte("")), nil
 
 	case VMTypeDict:
-		if save == nil {
-			save = map[*VMValue]bool{}
-		}
-		if _, exists := save[v]; exists {
-			return nil, errors.New("值错误: 序列化时检测到循环引用")
-		}
-		save[v] = true
 		cd := v.MustReadDictData()
 		if seen[cd] {
 			return nil, errors.New("值错误: 序列化时检测到循环引用")
